@@ -133,6 +133,8 @@ def _data(rng, nn=7, nlat=2, nlon=3):
 def _fit(model, da, Y=None):
     if model == "EOF":
         return xeofs.single.EOF(n_modes=2, solver="full").fit(da, "time")
+    if model == "EOF-nocenter":
+        return xeofs.single.EOF(n_modes=2, solver="full", center=False).fit(da, "time")
     if model == "EOF-std":
         return xeofs.single.EOF(n_modes=2, solver="full", standardize=True).fit(da, "time")
     if model == "EOFRotator":
@@ -274,6 +276,8 @@ def bounded_cases(tier, seed):
             for alt in ((1,), (0, 1), ()):
                 if tuple(alt) != tuple(f):
                     cases.append(dict(model="EOF", features=list(f), samples=list(s), other_mask=list(alt), keep=True))
+    for f, alt in (((0,), (1,)), ((2, 5), (0, 5)), ((3,), (3, 4)), ((1,), ())):
+        cases.append(dict(model="EOF-nocenter", features=list(f), samples=[], other_mask=list(alt), keep=True))
     for s in ((), (2,), (0, 6)):
         for f in ((), (4,)):
             cases.append(dict(model="MCA", features=list(f), samples=list(s), keep=True))
